@@ -28,6 +28,8 @@ def units(tier):
     us.append(lemma_unit("crc.step_lemmas", crc_lemmas.step_lemmas))
     us.append(lemma_unit("crc.induction_lemmas", crc_lemmas.induction_lemmas))
     us.append(ground_unit("crc.ground_lemmas", crc_lemmas.ground_lemmas))
+    from pyvc import clientrun
+    us.append(clientrun.unit("parse_ignores_checksum_when_not_validating", clientrun.lemma_validate_off))
     return us
 
 
